@@ -3041,8 +3041,10 @@ package gocql
 //@   loop 0: invariant hosts != nil && fresh(hosts)
 //@   loop 0: invariant forall(string(id), haskey(hosts, id) ==> haskey(r.hosts, id) && hosts[id] == r.hosts[id])
 
+// fills the fields that are still unset from the freshly read row; addresses that are set stay
 //@ func (h *HostInfo) update
-//@   trusted fills the fields that are still unset from the freshly read row; addresses that are set stay
+//@   props C16
+//@   requires h != nil && from != nil
 //@   modifies *h
 //@   ensures old(validhost(h)) ==> validhost(h)
 //@   ensures same(h.hostId, old(h.hostId)) || old(h.hostId) == ""
